@@ -41,6 +41,9 @@ CASES = [
     ('tcn_any', 'try_catch_any_raise_nested< named< 0, %s, must< %s > > >' % (S0, S1)),
     ('tcn_default', 'try_catch_raise_nested< named< 0, %s, must< %s > > >' % (S0, S1)),
     ('tcn_multi', 'try_catch_any_raise_nested< %s, must< %s > >' % (S0, S1)),
+    ('tc_any_single', 'sor< try_catch_any_return_false< %s >, %s >' % (S0, S1)),
+    ('tc_type_single', 'sor< try_catch_type_return_false< foreign_exc, %s >, %s >' % (S0, S1)),
+    ('tc_any_if_must', 'seq< opt< try_catch_any_return_false< if_must< %s, %s > > >, %s >' % (S0, S1, S2)),
     ('tc_empty', 'seq< try_catch_any_return_false<>, %s >' % S0),
 ]
 
@@ -67,6 +70,13 @@ def plan(ctx):
             qs.append(vf.Query('exc/%s/%s' % (name, '+'.join(grp)), unit, h, unwind=N + 3, cbmc_defines=cd,
                                bounds={'N': N, 'K': K, 'rule': text, 'reference': low, 'outcomes': seen, 'variants': grp},
                                note='exception identity/position/propagation/conversion vs reference semantics'))
+    # global failure raised inside the re-match rule of rematch<> (sub-input), on a LAZY input: the byte position must still lie in the window
+    c = {'name': 'rematch_must_lazy', 'cxx': 'rematch< %s, seq< sym2<0>, must< sym2<1> > > >' % S0, 'spec': 'rematch< %s, seq< sym2<0>, sor< sym2<1>, raise< sym2<1> > > > >' % S0}
+    unit = ctx.unit('c05_' + c['name'], text=symgen.wrapper_text([c], variants='4L'))
+    htext, low, seen = symgen.harness_text(c, N, K, doc, maxres=3, variants=('ar', 'ao'), k2=2, lazy=True)
+    h = ctx.write('h_%s.c' % c['name'], htext)
+    qs.append(vf.Query('exc/%s' % c['name'], unit, h, unwind=N + 3, bounds={'N': N, 'rule': c['cxx'], 'input': 'lazy'}, mem_gb=3,
+                       note='exception position of a must<> inside the re-match rule of rematch<> on a lazy input'))
     # must_if<> controls: a rule whose control raises on local failure turns that failure into a global one, blaming that rule
     qs += evplan.queries(ctx, 'c05', PROTO, ['mustif', 'mustif_bool'], N if ctx.quick() else 4, modes=('ar', 'ao', 'nr'))
     return qs
